@@ -554,6 +554,16 @@ func main() {
 		}
 		check(i, s, ch)
 	}
+	// sequential histories across a bucket NUMBER that is a multiple of 2^32 (10 ms buckets: the next one is in 2027):
+	// no recorder overlaps anything here, so the sums are exactly the recorded totals of the live buckets
+	for j, ne := 0, run.N(60, 600); j < ne; j++ {
+		i := 6_000_000 + j
+		if run.Skip(i) {
+			continue
+		}
+		run.Eval(i)
+		epoch(i, run.Rand(i))
+	}
 	if !run.Replaying() {
 		// bounded DFS (<= 2 pre-emptions) over 2-worker scenarios
 		nd := run.N(4, 60)
@@ -595,4 +605,41 @@ func check(i int, s *scen, ch coop.Chooser) {
 	}
 	run.Count("steps", int64(res.Steps))
 	run.Distinct(vk.Hash(s.Family, s.N, s.L, s.Workers, string(res.Choices)))
+}
+
+// epoch: one sequential recorder walking over bucket number k*2^32 on an array whose bucket count does not divide 2^32.
+func epoch(i int, rng *rand.Rand) {
+	N := vk.PickU32(rng, 3, 3, 5, 6, 7, 10, 20, 24, 2)
+	L := vk.PickU32(rng, 10, 10, 100, 500, 1000, 7)
+	kmax := int(uint64(9e12) / ((uint64(1) << 32) * uint64(L)))
+	k := uint64(1 + rng.Intn(kmax))
+	wrapAt := k << 32 // bucket number
+	b := wrapAt - 1 - uint64(rng.Intn(int(N)))
+	d := map[string]interface{}{"family": "epoch", "buckets": N, "bucket_ms": L, "wrap_at_bucket": wrapAt, "first_bucket": b}
+	run.Begin(i, d)
+	clk.SetMs(b*uint64(L) + uint64(rng.Intn(int(L))))
+	arr := sbase.NewBucketLeapArray(N, N*L)
+	rec := map[uint64]int64{}
+	for step := 0; step < int(2*N)+4; step++ {
+		now := clk.Ms()
+		cur := now / uint64(L)
+		amt := int64(1 + step)
+		if rng.Intn(5) != 0 {
+			arr.AddCount(base.MetricEventPass, amt)
+			rec[cur] += amt
+		}
+		var want int64
+		for q, a := range rec {
+			if q+uint64(N) > cur && q <= cur {
+				want += a
+			}
+		}
+		if got := arr.Count(base.MetricEventPass); got != want {
+			run.Violation("C09/epoch:sequential-sum", fmt.Sprintf("[%d x %d ms, sequential] at bucket number %d (2^32*%d %+d) the array reports %d, recorded in the %d live buckets: %d", N, L, cur, k, int64(cur)-int64(wrapAt), got, N, want), d)
+			return
+		}
+		clk.AddMs(uint64(vk.PickU32(rng, L, L, L, 0, 1, 2*L)))
+	}
+	run.Count("epoch_histories", 1)
+	run.Distinct(vk.Hash("epoch", N, L, k, b))
 }
